@@ -125,24 +125,52 @@ def swift_scan(files):
     return decl, refs
 
 
-def check_model(model, specs, trace, oc, out_v):
+class T(object):
+    """Inventory entry of a user type: what the spec text declares, independent of stone's IR."""
+    def __init__(self, name, is_struct, members):
+        self.name, self.is_struct, self.members = name, is_struct, members
+
+
+class Rt(object):
+    def __init__(self, name, version=1):
+        self.name, self.version = name, version
+
+
+class Mem(object):
+    def __init__(self, name):
+        self.name = name
+
+
+def inventory(model):
+    types = [(nsn, T(d.name, isinstance(d, Struct), mm.own_members(model, nsn, d))) for nsn, fi, di, d in mm.all_defs(model)
+             if nsn != 'stone_cfg' and isinstance(d, (Struct, Union))]
+    routes = [(nsn, d) for nsn, fi, di, d in mm.all_defs(model) if nsn != 'stone_cfg' and isinstance(d, Route)]
+    namespaces = [ns.name for ns in model.namespaces if ns.name != 'stone_cfg']
+    return namespaces, types, routes
+
+
+def check_model(inv, specs, trace, oc, out_v, label=None):
     out = impl.compile_specs(specs)
     if out.kind != 'ok':
+        if label:
+            raise explore.InternalError('shape spec %s not accepted: %s' % (label, out.brief()))
         oc['not-accepted'] += 1
         return 0
     n = 0
-    types = [(nsn, d) for nsn, fi, di, d in mm.all_defs(model) if nsn != 'stone_cfg' and isinstance(d, (Struct, Union))]
-    routes = [(nsn, d) for nsn, fi, di, d in mm.all_defs(model) if nsn != 'stone_cfg' and isinstance(d, Route)]
-    namespaces = [ns.name for ns in model.namespaces if ns.name != 'stone_cfg']
+    namespaces, types, routes = inv
+    pos = label.split(':')[0] if label else None
     for backend, args in CONFIGS:
         n += 1
         api = impl.compile_specs(specs).api
         res = impl.backend_outputs(api, [backend], args_override={backend: args})[backend]
         cfg = backend + (' --objc' if '--objc' in args else '')
         inputs = {'specs': specs, 'trace': list(trace), 'backend': backend, 'args': args}
+        if label:
+            inputs['shape'] = label
         if 'crash' in res:
             oc['crash'] += 1
-            out_v.append(viol('backend-%s:%s' % (res['crash'], cfg), '%s failed on an accepted spec: %s' % (cfg, res['crash']), inputs, res['tb']))
+            out_v.append(viol('backend-%s:%s%s' % (res['crash'], cfg, ':' + pos if pos else ''), '%s failed on %s: %s' % (cfg, 'shape ' + label if label else 'an accepted spec', res['crash']),
+                              inputs, res['tb']))
             continue
         lang_of = lambda fn: 'swift' if fn.endswith('.swift') else ('objc' if fn.endswith(('.h', '.m')) else None)
         codes = {}
@@ -170,7 +198,7 @@ def check_model(model, specs, trace, oc, out_v):
                 if decl[('class', pascal(nsn))] != 1 and '--objc' not in args:
                     out_v.append(viol('swift-namespace-declared-once', 'namespace class %s declared %d times' % (pascal(nsn), decl[('class', pascal(nsn))]), inputs))
             for nsn, d in types:
-                kind = 'class' if isinstance(d, Struct) else 'enum'
+                kind = 'class' if d.is_struct else 'enum'
                 if '--objc' in args:
                     continue
                 if decl[(kind, d.name)] != 1:
@@ -178,9 +206,8 @@ def check_model(model, specs, trace, oc, out_v):
                 if decl[('class', d.name + 'Serializer')] != 1:
                     out_v.append(viol('swift-serializer-declared-once', 'serializer of %s.%s declared %d times' % (nsn, d.name, decl[('class', d.name + 'Serializer')]), inputs))
                 code = codes.get(pascal(nsn) + '.swift', '')
-                members = mm.own_members(model, nsn, d)
-                for f in members:
-                    if isinstance(d, Struct):
+                for f in d.members:
+                    if d.is_struct:
                         if not re.search(r'\b(?:let|var)\s+%s\s*:' % re.escape(f.name), code):
                             out_v.append(viol('swift-field-missing', 'field %s of %s.%s is not declared' % (f.name, nsn, d.name), inputs))
                     else:
@@ -208,7 +235,32 @@ def check_model(model, specs, trace, oc, out_v):
                     out_v.append(viol('swift-undeclared-type', 'output refers to %s.%s, which is not declared' % (a, b), inputs))
                 elif a in declared_ns and b.endswith('Serializer') and (a, b) not in declared_types:
                     out_v.append(viol('swift-undeclared-type:serializer', 'output refers to %s.%s, which is not declared' % (a, b), inputs))
+        elif backend == 'swift_client' and '--objc' not in args:
+            # <Ns>Routes.swift refers to the route objects <Ns>.<route> that swift_types declares: resolve them against its output for the same spec
+            tres = impl.backend_outputs(impl.compile_specs(specs).api, ['swift_types'], args_override={'swift_types': []})['swift_types']
+            if 'crash' not in tres:
+                tcode = {}
+                for fn, data in tres['files'].items():
+                    if fn.endswith('.swift'):
+                        c2, _e = lex(data.decode('utf-8', 'replace'), 'swift')
+                        tcode[fn] = c2 or ''
+                for fn, code in codes.items():
+                    for m in re.finditer(r'\b([A-Z]\w*)\.([a-z]\w*)\b', code):
+                        nsn = [x for x in namespaces if pascal(x) == m.group(1)]
+                        if not nsn or not fn.startswith(m.group(1) + 'Routes'):
+                            continue
+                        home = tcode.get(m.group(1) + '.swift', '')
+                        if not re.search(r'\bstatic\s+let\s+%s\b' % re.escape(m.group(2)), home):
+                            out_v.append(viol('swift-client-undeclared-route', '%s uses %s.%s, which the swift_types output for the same spec does not declare'
+                                              % (fn, m.group(1), m.group(2)), inputs))
         elif backend == 'obj_c_types':
+            user_classes = {'DB%s%s' % (nsn.upper(), d.name) for nsn, d in types}
+            for fn, code in codes.items():
+                mentioned = {x for x in set(re.findall(r'\bDB[A-Z]+[A-Za-z0-9]*\b', code)) if x in user_classes}
+                here = set(re.findall(r'@class\s+(\w+)\s*;', code)) | set(re.findall(r'@interface\s+(\w+)', code)) | set(re.findall(r'#import\s+"S"', code))
+                imported = set(re.findall(r'#import\s+"(\w+)\.h"', res['files'][fn].decode('utf-8', 'replace')))
+                for x in sorted(mentioned - here - imported):
+                    out_v.append(viol('objc-file-undeclared-type:%s' % fn.rsplit('.', 1)[-1], '%s mentions %s without @class, @interface or #import of it' % (fn, x), inputs))
             allcode = '\n'.join(codes.values())
             interfaces = collections.Counter(re.findall(r'@interface\s+(\w+)\s*:', allcode))
             impls = collections.Counter(re.findall(r'@implementation\s+(\w+)\b', allcode))
@@ -219,8 +271,8 @@ def check_model(model, specs, trace, oc, out_v):
                 if interfaces[cname + 'Serializer'] != 1 or impls[cname + 'Serializer'] != 1:
                     out_v.append(viol('objc-serializer-declared-once', '%sSerializer has %d @interface and %d @implementation' % (cname, interfaces[cname + 'Serializer'], impls[cname + 'Serializer']), inputs))
                 hdr = codes.get('ApiObjects/%s/Headers/%s.h' % (pascal(nsn), cname), '')
-                for f in mm.own_members(model, nsn, d):
-                    if isinstance(d, Struct):
+                for f in d.members:
+                    if d.is_struct:
                         if not re.search(r'@property[^;]*\b%s;' % re.escape(f.name), hdr):
                             out_v.append(viol('objc-field-missing', 'field %s of %s has no @property' % (f.name, cname), inputs))
                     else:
@@ -250,77 +302,59 @@ def check_model(model, specs, trace, oc, out_v):
 
 
 SHAPES = ['Int32', 'String?', 'List(String)', 'List(String?)', 'Map(String, Int32)', 'Map(String, Plain)', 'Map(String, List(Plain))', 'List(Map(String, Plain))',
+          'List(List(Plain))', 'Map(String, Map(String, Plain))', 'List(Map(String, List(Plain)))', 'Map(String, List(Uni))', 'List(Plain?)', 'Map(String, List(other.Fo))',
           'Plain', 'Plain?', 'Tree', 'Tree?', 'List(Tree)', 'Map(String, Tree)', 'Uni', 'Uni?', 'List(Uni)', 'Map(String, Uni)', 'Alp', 'List(Alp)', 'Map(String, Alp)',
           'Bytes', 'Timestamp("%Y")', 'Float64', 'Boolean', 'UInt64', 'other.Fo', 'List(other.Fo)', 'Map(String, other.Fo)']
 DEFAULTS = [('Int32', '3'), ('String', '"s"'), ('Boolean', 'true'), ('Float64', '1.5'), ('UInt64', '7'), ('Uni', 'va'), ('Bytes', '"YWJj"'), ('Timestamp("%Y")', '"2000"')]
 
 
 def shape_specs():
-    """One small spec per (shape, position): field, tag, route argument/result/error; defaults."""
+    """One small spec per (shape, position): field, tag, route argument/result/error; defaults; namespaces that hold only routes / aliases."""
     base_other = ('other.stone', 'namespace other\n\nstruct Fo\n    x Int32\n')
     common = 'namespace sh\n\nimport other\n\nstruct Plain\n    a Int32\n\nstruct Tree\n    union\n        lf Lf\n    t Int32\n\nstruct Lf extends Tree\n    l Int32\n\n' \
              'union Uni\n    va\n    vb String\n\nalias Alp = Plain\n\n'
+    base_types = [('other', T('Fo', True, [Mem('x')])), ('sh', T('Plain', True, [Mem('a')])), ('sh', T('Tree', True, [Mem('t')])), ('sh', T('Lf', True, [Mem('l')])),
+                  ('sh', T('Uni', False, [Mem('va'), Mem('vb')]))]
+    nss = ['other', 'sh']
     out = []
     for sh in SHAPES:
-        out.append(('field:' + sh, [base_other, ('sh.stone', common + 'struct H\n    f %s\n' % sh), ('cfg.stone', c12.CFG)]))
-        out.append(('tag:' + sh, [base_other, ('sh.stone', common + 'union HU\n    t %s\n' % sh), ('cfg.stone', c12.CFG)]))
+        out.append(('field:' + sh, [base_other, ('sh.stone', common + 'struct H\n    f %s\n' % sh), ('cfg.stone', c12.CFG)], (nss, base_types + [('sh', T('H', True, [Mem('f')]))], [])))
+        out.append(('tag:' + sh, [base_other, ('sh.stone', common + 'union Hu\n    t %s\n' % sh), ('cfg.stone', c12.CFG)], (nss, base_types + [('sh', T('Hu', False, [Mem('t')]))], [])))
         for slot, sig in (('arg', '%s, Void, Void'), ('result', 'Void, %s, Void'), ('error', 'Void, Void, %s')):
             for style in ('rpc', 'upload', 'download'):
-                out.append(('route-%s:%s:%s' % (slot, style, sh), [base_other, ('sh.stone', common + 'route r(%s)\n    attrs\n        style = "%s"\n' % (sig % sh, style)), ('cfg.stone', c12.CFG)]))
+                out.append(('route-%s:%s:%s' % (slot, style, sh), [base_other, ('sh.stone', common + 'route r(%s)\n    attrs\n        style = "%s"\n' % (sig % sh, style)), ('cfg.stone', c12.CFG)],
+                            (nss, base_types, [('sh', Rt('r'))])))
     for t, v in DEFAULTS:
-        out.append(('default:' + t, [base_other, ('sh.stone', common + 'struct H\n    f %s = %s\n' % (t, v)), ('cfg.stone', c12.CFG)]))
+        out.append(('default:' + t, [base_other, ('sh.stone', common + 'struct H\n    f %s = %s\n' % (t, v)), ('cfg.stone', c12.CFG)], (nss, base_types + [('sh', T('H', True, [Mem('f')]))], [])))
+    # namespaces whose content is only routes (types imported), only aliases, or nothing but an import
+    for lab, body, routes in (
+            ('routes-only:void', 'route ping(Void, Void, Void)\n\nroute pong:2(Void, Void, Void)\n', [Rt('ping'), Rt('pong', 2)]),
+            ('routes-only:imported', 'route get(sh.Plain, sh.Uni, sh.Uni)\n    attrs\n        style = "rpc"\n', [Rt('get')]),
+            ('routes-only:alias', 'alias Pl = sh.Plain\n\nroute get(Pl, Void, Void)\n', [Rt('get')]),
+            ('aliases-only', 'alias Pl = sh.Plain\n\nalias Ls = List(sh.Uni)\n', []),
+            ('empty-ns', '', [])):
+        out.append(('namespace:' + lab, [base_other, ('sh.stone', common), ('ro.stone', 'namespace ro\n\nimport sh\n\n' + body), ('cfg.stone', c12.CFG)],
+                    (nss + ['ro'], base_types, [('ro', r) for r in routes])))
     return out
 
 
-def shape_task(label, specs):
+def shape_task(label, specs, inv):
     oc = collections.Counter()
     out_v = []
-    out = impl.compile_specs(specs)
-    if out.kind != 'ok':
-        raise explore.InternalError('shape spec %s not accepted: %s' % (label, out.brief()))
-    n = 0
-    for backend, args in CONFIGS:
-        n += 1
-        api = impl.compile_specs(specs).api
-        res = impl.backend_outputs(api, [backend], args_override={backend: args})[backend]
-        cfg = backend + (' --objc' if '--objc' in args else '')
-        pos = label.split(':')[0]
-        inputs = {'specs': specs, 'backend': backend, 'args': args, 'shape': label}
-        if 'crash' in res:
-            oc['crash'] += 1
-            out_v.append(viol('backend-%s:%s:%s' % (res['crash'], cfg, pos), '%s failed on shape %s: %s' % (cfg, label, res['crash']), inputs, res['tb']))
-            continue
-        for fn, data in res['files'].items():
-            lang = 'swift' if fn.endswith('.swift') else ('objc' if fn.endswith(('.h', '.m')) else None)
-            if lang is None or fn.startswith('Resources/') or fn in ('StoneBase.swift', 'StoneSerializers.swift', 'StoneValidators.swift', 'ReconnectionHelpers.swift'):
-                continue
-            code, err = lex(data.decode('utf-8', 'replace'), lang)
-            if code is None:
-                out_v.append(viol('lexical:%s' % cfg, '%s output %s for shape %s: %s' % (cfg, fn, label, err), inputs))
-                continue
-            if lang == 'swift':
-                for m in re.finditer(r'(?:Dictionary<\s*String\s*,\s*|Array<\s*)([A-Z]\w*)(?![\w.])', code):
-                    if m.group(1) not in ('String', 'Int32', 'UInt32', 'Int64', 'UInt64', 'Double', 'Float', 'Bool', 'Data', 'Date', 'NSNumber', 'Array', 'Dictionary',
-                                          'NSString', 'NSArray', 'NSDictionary', 'NSData', 'NSDate', 'JSON') and not m.group(1).startswith('DBX') and not re.search(r'\b(?:class|enum)\s+%s\b' % m.group(1), code):
-                        out_v.append(viol('swift-undeclared-type:bare', '%s uses the type name %s, which is not declared (shape %s)' % (fn, m.group(1), label), inputs))
-            else:
-                for m in re.finditer(r'(?:NSDictionary<\s*NSString \*\s*,\s*|NSArray<\s*)([A-Za-z]\w*)', code):
-                    if not m.group(1).startswith(('NS', 'DB')) and m.group(1) != 'id':
-                        out_v.append(viol('objc-undeclared-type:bare', '%s uses the type name %s, which is not declared (shape %s)' % (fn, m.group(1), label), inputs))
-        oc['ok'] += 1
-    return {'outcome': oc, 'viol': out_v, 'n': n, 'transitions': n}
+    n = check_model(inv, specs, [], oc, out_v, label=label)
+    return {'outcome': oc, 'viol': out_v, 'n': max(n, 1), 'transitions': n}
 
 
 def task(item):
     if item[0] == 'shape':
-        return shape_task(item[1], item[2])
+        return shape_task(item[1], item[2], item[3])
     model, trace, pname, flags, depth = item[1]
     specs = render.render(model)
     if not any(ns.name == 'stone_cfg' for ns in model.namespaces):
         specs = specs + [('cfg.stone', c12.CFG)]
     oc = collections.Counter()
     out_v = []
-    n = check_model(model, specs, trace, oc, out_v)
+    n = check_model(inventory(model), specs, trace, oc, out_v)
     return {'outcome': oc, 'viol': out_v, 'n': max(n, 1), 'transitions': n}
 
 
@@ -330,7 +364,7 @@ def run(tier, seed):
     # the attrs families use schemas without auth/host/style: the client backends need those, keep them for the types backends only
     items = [('model', s) for s in states if not any(ns.name == 'stone_cfg' for ns in s[0].namespaces)]
     shapes = shape_specs()
-    items += [('shape', lab, sp) for lab, sp in shapes]
+    items += [('shape', lab, sp, inv) for lab, sp, inv in shapes]
     r.bounds.update({'configurations': [b + ' ' + ' '.join(a[:1] if a and a[0] == '--objc' else []) for b, a in CONFIGS], 'models': len(items) - len(shapes),
                      'shape_specs': len(shapes), 'shapes': SHAPES})
     r.sample({'shape': shapes[3][0], 'specs': shapes[3][1][1][1][-300:]})
